@@ -75,7 +75,7 @@ def main():
             meta["notes"] = json.load(open(os.path.join(a.src, "notes.json")))
         except Exception:  # noqa: BLE001
             try:        # re-evaluation of a stored change: the notes are inside its meta.json
-                meta["notes"] = json.load(open(os.path.join(a.src, "meta.json"))["notes"]
+                meta["notes"] = json.load(open(os.path.join(a.src, "meta.json")))["notes"]
             except Exception:  # noqa: BLE001
                 meta["notes"] = None
         meta["ran"] = [f"demo.py on clean worktree (rc {rc0})", "git apply patch.diff", f"unit tests: {meta['unit_tests']}",
